@@ -9,8 +9,8 @@
 // wiring of cmd/serve, real configuration loader, mechanisms, rule factory,
 // repository, rule executor) — the HTTP decision service and the proxy service
 // through their real middleware chains (served in-process so that the scheme
-// can be https), and the Envoy ext_authz gRPC service over a real loopback
-// gRPC connection.  One generated *logical request* (method, scheme, host,
+// can be https), and the Envoy ext_authz gRPC service (its real grpc.Server with
+// the interceptor chain) over a real loopback gRPC connection.  One generated *logical request* (method, scheme, host,
 // path, query, header lines in any casing, cookies, body) is sent to all
 // three; the generated rule sets use real `cel` authorizers, step `if`
 // conditions, `header` and `cookie` finalizers whose templates and CEL
@@ -1095,7 +1095,7 @@ func c13ObserveProxy(app *assembly.HandlerApp, up *assembly.Upstream, c c13Case)
 	return o
 }
 
-func c13ObserveEnvoy(app *assembly.App, c c13Case) c13EObs {
+func c13ObserveEnvoy(app *assembly.EnvoyApp, c c13Case) c13EObs {
 	ctx := metadata.AppendToOutgoingContext(context.Background(), "x-forwarded-for", c.Req.Peer)
 
 	resp, err := app.Check(ctx, c.Req.envoy())
@@ -1481,7 +1481,7 @@ func c13Corpus() ([]c13Rule, []c13Case) {
 
 type c13Apps struct {
 	dec, prx *assembly.HandlerApp
-	env      *assembly.App
+	env      *assembly.EnvoyApp
 }
 
 func (a *c13Apps) stop() {
@@ -1512,7 +1512,7 @@ func c13Start(t *testing.T, rules []c13Rule, upHost string) *c13Apps {
 		t.Fatalf("proxy app: %v\n%s", err, y)
 	}
 
-	if a.env, err = assembly.StartEnvoy(c13Config, y); err != nil {
+	if a.env, err = assembly.StartEnvoyHandler(c13Config, y); err != nil {
 		t.Fatalf("envoy app: %v\n%s", err, y)
 	}
 
